@@ -63,6 +63,10 @@ def main():
         except BaseException as e:
             return ["other", type(e).__name__, str(e)[:200]]
 
+    def _nopath(s, path):
+        # "differing only in the reported file name": a message that quotes the path is compared with the path blanked
+        return [x.replace(str(path), "<file>") if isinstance(x, str) else x for x in s]
+
     def _dump(node):
         # deterministic also for malformed trees that hold raw tuples (their repr would contain object addresses)
         if isinstance(node, ast.AST):
@@ -84,9 +88,13 @@ def main():
             import io as _io
             import tokenize as _pytok
 
+            undecodable = None
             enc, _ = _pytok.detect_encoding(_io.BytesIO(raw).readline)
             text = raw.decode(enc)
-        except (SyntaxError, UnicodeDecodeError, LookupError):
+        except (SyntaxError, UnicodeDecodeError, LookupError) as e:
+            # the bytes are not a text at all for CPython (a declaration naming an unknown encoding, bytes invalid in the declared one):
+            # there is no "string with the same content" to compare with; only the file side's refusal is observed
+            undecodable = type(e).__name__
             text = raw.decode("utf-8-sig", "replace")
         del opened[:]
         fsig = sig(XonshParser.parse_file, pathlib.Path(p))
@@ -96,7 +104,8 @@ def main():
         tsig = None
         if "\r" in text:
             tsig = sig(XonshParser.parse_string, text.replace("\r\n", "\n").replace("\r", "\n"), mode="exec")
-        out["cases"].append({"name": n, "file": fsig, "string": ssig, "translated": tsig, "opened": seen})
+        fsig = _nopath(fsig, p)
+        out["cases"].append({"name": n, "file": fsig, "string": ssig, "translated": tsig, "opened": seen, "undecodable": undecodable})
     # second pass: one path whose content is rewritten before every parse (an edited script parsed again in the same process):
     # the file entry point must see the current content, exactly as the fresh path did
     same = os.path.join(casedir, "_same_path.xsh")
@@ -105,7 +114,7 @@ def main():
             data = f.read()
         with builtins.open(same, "wb") as f:
             f.write(data)
-        c["rewritten"] = sig(XonshParser.parse_file, pathlib.Path(same))
+        c["rewritten"] = _nopath(sig(XonshParser.parse_file, pathlib.Path(same)), same)
     sys.stdout.write(json.dumps(out, ensure_ascii=True))
 
 
